@@ -14,7 +14,7 @@ from lib import dstr, dstrs, dopt
 from props import cons as C
 from props import textcmp as T
 
-NAMES = ['f0', 'a b', 'é', 'F_3', 'x.y', 'n']
+NAMES = ['f0', 'a b', 'é', 'F_3', 'x.y', 'n', ' lead', 'trail ', 'tab\tend\t']   # (names with blanks at either end are names too)
 
 
 def gen_frame_cols(rng):
